@@ -1,5 +1,5 @@
 (** * C04 — Decoding accepts exactly the valid encodings and returns the specified value. *)
-From SSZ Require Import Base Offsets Types Codec Spec CodecUnfold ListDecFacts Strict.
+From SSZ Require Import Base Offsets Types Codec Spec CodecUnfold ListDecFacts Strict ListView ListViewFacts.
 Open Scope N_scope.
 
 (** The reference "deserializer" is the relation [Valid t bs v] of [Spec.v]: [v] is a value of
@@ -28,6 +28,28 @@ Theorem C04_maps_forward :
                m = VList (collect_entries true es).
 Proof. exact dec_map_forward. Qed.
 Print Assumptions C04_maps_forward.
+
+(** Ordered collections anywhere inside a type, both directions: with every set / map read as the plain list of its
+    entries ([list_view]), a type accepts exactly the valid encodings of that view, and returns the collection of the
+    listed entries, collected innermost first ([collect_rec]).  This contains the two forward theorems above and
+    their converse, at every nesting depth (a map whose values are sets, a list of maps, a set inside a union ...). *)
+Theorem C04_collections_at_any_depth :
+  forall t bs v, strict_type (list_view t) = true -> phys bs -> len bs < 4294967296 ->
+    (dec t bs = Ok v <-> exists L, Valid (list_view t) bs L /\ v = collect_rec t L).
+Proof.
+  intros t bs v Hs Hp Hl. rewrite (dec_by_collection t bs). split.
+  - destruct (dec (list_view t) bs) as [L| |] eqn:E; cbn [omap]; try discriminate.
+    intro H. injection H as <-. exists L. split; [|reflexivity].
+    apply (dec_iff_valid (list_view t) bs L Hs Hp Hl). exact E.
+  - intros (L & HV & ->). apply (dec_iff_valid (list_view t) bs L Hs Hp Hl) in HV. rewrite HV. reflexivity.
+Qed.
+Print Assumptions C04_collections_at_any_depth.
+Example C04_collections_hypotheses_satisfiable :
+  let t := TMap (TUint 1) (TSet (TUint 2)) in
+  strict_type (list_view t) = true /\
+  Valid (list_view t) [4; 0; 0; 0; 0; 5; 0; 0; 0; 0; 0; 0; 0] (VList [VCont [VUint 0; VList [VUint 0; VUint 0]]]) /\
+  collect_rec t (VList [VCont [VUint 0; VList [VUint 0; VUint 0]]]) = VList [VCont [VUint 0; VList [VUint 0]]].
+Proof. vm_compute. repeat split; reflexivity. Qed.
 
 (** Transparent enums decode to the first variant that accepts. *)
 Theorem C04_transparent_enum :
